@@ -28,6 +28,8 @@ type gFlt struct {
 	On bool   `json:"on"`
 	Op string `json:"op"`
 	CV fVal   `json:"cv"`
+	// Wrap: "" | and1 | or1 (a group around the leaf) | and0 | or0 | nope0 (a group without members as the whole filter)
+	Wrap string `json:"wrap"`
 }
 
 type gRule struct {
@@ -79,7 +81,12 @@ type gCase struct {
 	// Huge: the page size is one of hugeSizes ("everything on one page"); Size then holds
 	// a stand-in larger than the collection, which cuts the same pages
 	Huge int `json:"huge"`
+	// Names: how the two attributes the model calls x and y are really called (1: names that end like
+	// the identifier does - "paid", "valid")
+	Names int `json:"names"`
 }
+
+var rangeNames = [][2]string{{"x", "y"}, {"paid", "valid"}}
 
 func (c gCase) value(kind int, null bool, v fVal, raw string) any {
 	if v.Nil {
@@ -122,7 +129,8 @@ func runRangeCase(c gCase) gEvent {
 		ev.Col[i].X, ev.Col[i].Y = ev.Col[i].X.norm(), ev.Col[i].Y.norm()
 		ev.Col[i].RawX, ev.Col[i].RawY = "", ""
 	}
-	fields := defMap{"x": {Kind: "attr", K: kindName(c.KX), Null: c.NX}, "y": {Kind: "attr", K: kindName(c.KY), Null: c.NY}}
+	nx, ny := rangeNames[c.Names%2][0], rangeNames[c.Names%2][1]
+	fields := defMap{nx: {Kind: "attr", K: kindName(c.KX), Null: c.NX}, ny: {Kind: "attr", K: kindName(c.KY), Null: c.NY}}
 	byID := map[string]gRes{}
 	for _, r := range c.Col {
 		byID[r.ID] = r
@@ -130,6 +138,12 @@ func runRangeCase(c gCase) gEvent {
 	rules := []string{}
 	for _, r := range c.Rules {
 		s := r.F
+		switch s {
+		case "x":
+			s = nx
+		case "y":
+			s = ny
+		}
 		if r.Desc {
 			s = "-" + s
 		}
@@ -156,13 +170,25 @@ func runRangeCase(c gCase) gEvent {
 				r := byID[id]
 				res := newRes(impl, "rt", fields, kindMap{})
 				res.Set("id", id)
-				res.Set("x", c.value(c.KX, c.NX, r.X, r.RawX))
-				res.Set("y", c.value(c.KY, c.NY, r.Y, r.RawY))
+				res.Set(nx, c.value(c.KX, c.NX, r.X, r.RawX))
+				res.Set(ny, c.value(c.KY, c.NY, r.Y, r.RawY))
 				col.Add(res)
 			}
 			var flt *jsonapi.Filter
 			if c.Flt.On {
-				flt = &jsonapi.Filter{Field: "x", Op: c.Flt.Op, Val: ordValue(c.KX, c.NX, c.Flt.CV, c.Table)}
+				flt = &jsonapi.Filter{Field: nx, Op: c.Flt.Op, Val: ordValue(c.KX, c.NX, c.Flt.CV, c.Table)}
+			}
+			switch c.Flt.Wrap {
+			case "and1":
+				flt = &jsonapi.Filter{Op: "and", Val: []*jsonapi.Filter{flt}}
+			case "or1":
+				flt = &jsonapi.Filter{Op: "or", Val: []*jsonapi.Filter{flt}}
+			case "and0":
+				flt = &jsonapi.Filter{Op: "and", Val: []*jsonapi.Filter{}}
+			case "or0":
+				flt = &jsonapi.Filter{Op: "or", Val: []*jsonapi.Filter{}}
+			case "nope0":
+				flt = &jsonapi.Filter{Op: "xor", Val: []*jsonapi.Filter{}}
 			}
 			run := gRun{Order: order, Pages: [][]string{}, After: []string{}, NonNil: true}
 			// one id list and one rule list for all the pages of a walk, as a caller paging through has
@@ -288,6 +314,9 @@ func rangeMain(args []string) {
 		return k, rng.Intn(2) == 0
 	}
 	pickImpl := func(c *gCase) {
+		if rng.Intn(3) == 0 {
+			c.Names = 1
+		}
 		switch rng.Intn(5) {
 		case 0:
 			c.Impl, c.Coll = "soft", "resources"
@@ -351,6 +380,12 @@ func rangeMain(args []string) {
 			}
 			cv := absVal(c.KX, c.NX)
 			c.Flt = gFlt{On: true, Op: op, CV: cv}
+			if rng.Intn(4) == 0 {
+				c.Flt.Wrap = []string{"and1", "or1"}[rng.Intn(2)]
+			}
+		} else if rng.Intn(5) == 0 {
+			c.Flt.Wrap = []string{"and0", "or0", "nope0"}[rng.Intn(3)]
+			stt.class("filter-group-without-members")
 		}
 		for k := rng.Intn(4); k > 0; k-- {
 			c.Rules = append(c.Rules, gRule{F: ruleNames[rng.Intn(3)], Desc: rng.Intn(2) == 0})
